@@ -39,6 +39,9 @@ type modset struct {
 	// packages (mangled prefix), and every scalar element/box/map heap.
 	pkgs        map[string]bool
 	scalarElems bool
+	// preserve: keys explicitly excluded from the coarse classes / heap havoc
+	preserve        map[string]bool
+	preserveEntries map[string]modEntry // how to register the sort of a preserved key
 	any    map[string]modEntry // written through a pre-existing object
 	fresh  map[string]modEntry // written only through objects allocated in the same function
 	allocs bool
@@ -49,7 +52,40 @@ func newModset() *modset {
 	return &modset{any: map[string]modEntry{}, fresh: map[string]modEntry{}}
 }
 
+// writes: may the mod-set write heap key k (at a pre-existing object)?
+func (m *modset) writes(k string) bool {
+	if _, ok := m.any[k]; ok {
+		return true
+	}
+	if m.all {
+		if m.heapOnly && strings.HasPrefix(k, "G_ghost_") {
+			return false
+		}
+		return !m.preserve[k]
+	}
+	return m.coarse(k)
+}
+
 func (m *modset) union(o *modset) {
+	// a key stays preserved only if neither side writes it
+	np := map[string]bool{}
+	for k := range m.preserve {
+		if !o.writes(k) {
+			np[k] = true
+		}
+	}
+	for k := range o.preserve {
+		if !m.writes(k) {
+			np[k] = true
+		}
+	}
+	defer func() { m.preserve = np }()
+	for k, v := range o.preserveEntries {
+		if m.preserveEntries == nil {
+			m.preserveEntries = map[string]modEntry{}
+		}
+		m.preserveEntries[k] = v
+	}
 	if o.all {
 		if !m.all {
 			m.why = o.why
@@ -84,7 +120,7 @@ func (m *modset) coarse(key string) bool {
 	if len(key) < 3 {
 		return false
 	}
-	if strings.HasPrefix(key, "G_ghost_") {
+	if strings.HasPrefix(key, "G_ghost_") || m.preserve[key] {
 		return false
 	}
 	rest := key[2:]
@@ -410,7 +446,26 @@ func (w *world) libraryFrame(kg *fgen, callee *ssa.Function, args []ssa.Value) *
 }
 
 // declMods adds the declared modifies set of a contract (coarse: whole heap keys).
-func (w *world) declMods(kg *fgen, fc *funcContract, ms *modset) {
+func (w *world) declMods(kg *fgen, fc *funcContract, out *modset) {
+	ms := newModset()
+	defer func() { out.union(ms) }()
+	for _, item := range fc.preserves {
+		keys, err := kg.modKeys(fc, item)
+		if err != nil {
+			continue
+		}
+		if ms.preserve == nil {
+			ms.preserve = map[string]bool{}
+		}
+		for k, e := range keys {
+			e.register(kg, k)
+			ms.preserve[k] = true
+			if out.preserveEntries == nil {
+				out.preserveEntries = map[string]modEntry{}
+			}
+			out.preserveEntries[k] = e
+		}
+	}
 	for _, m := range fc.modifies {
 		if m == "*" {
 			ms.all, ms.heapOnly = true, false
@@ -436,9 +491,9 @@ func (w *world) declMods(kg *fgen, fc *funcContract, ms *modset) {
 			continue
 		}
 		if m == "heap" {
-			o := newModset()
-			o.all, o.heapOnly, o.why = true, true, "modifies heap on "+fc.key
-			ms.union(o)
+			if !ms.all {
+				ms.all, ms.heapOnly, ms.why = true, true, "modifies heap on "+fc.key
+			}
 			continue
 		}
 		keys, err := kg.modKeys(fc, m)
